@@ -28,8 +28,8 @@ CHECKS = {
   text="TLC explores the bounded Quota model (context stack, CallContext frames, panics; saturating 4-bit counters scaled to 64 bits, "
        "and unscaled) exhaustively; every transition's path is replayed on the real runtime-context manager through the exported API and "
        "the projected state compared; the model's invariants (BudgetConservation, SoftWithinHard, FlagsMonotone, UsedBelowKill, "
-       "ChargedToParent, StatusTruth, Exact, TimeExact, PoppedAtEnd) are evaluated on every transition and hold for the real manager because its state equals the model's",
-  note="bounded: depth<=3-4 contexts, 2-3 nested CallContext, limits/amounts from a 4-bit lattice; time limits (Millis) driven by a virtual clock through the verif hook VerifNowHook, API level only (clock steps {4,9} ms, limits {0,10} ms, the real CPU threshold 10000); TLC and the JSON bridge trusted",
+       "ChargedToParent, StatusTruth, Exact, TimeExact, PoppedAtEnd, FrameOwnsContext) are evaluated on every transition and hold for the real manager because its state equals the model's",
+  note="bounded: depth<=3-4 contexts, 2-3 nested CallContext, limits/amounts from a 4-bit lattice; time limits (Millis) driven by a virtual clock through the verif hook VerifNowHook, API level only (clock steps {4,9} ms, limits {0,10} ms, the real CPU threshold 10000); coroutines (QuotaCoQ.cfg: 2 coroutines driven through the real Thread API, each with its own CallContext frames over the runtime's one context stack: open finding F47); TLC and the JSON bridge trusted",
   technique="TLA+ spec Quota.tla, TLC exhaustive BFS, per-transition replay on the real API (direction A)"),
  "C08": dict(
   level="model_checking", ref="5 C08",
@@ -84,7 +84,7 @@ CHECKS = {
        "compiler exhausts the Go stack), plus 34 shapes of unbounded recursion through a route that nests the implementation's own stack (every operator metamethod, looping __call/__index chains, "
        "__tostring, __close, sort/gsub callbacks, xpcall handler, load reader ...) which have no value and are run both under limits and with no resource limit at all; the only allowed outcomes on the real pipeline are an ordinary compile/runtime error, a resource "
        "termination, or that value - a Go panic, a process crash, a hang or a wrong value is a violation. Plain exploration in addition: every standard-library function x 40-400 "
-       "edge-value argument tuples, and seeded byte mutations of generated programs, with the oracle 'ordinary outcome'",
+       "edge-value argument tuples, seeded byte mutations of generated programs, and seeded byte mutations of binary chunks (string.dump output) loaded in mode b and then run, with the oracle 'ordinary outcome'",
   note="totality over all byte strings and all argument tuples is explored, not model-checked; only the limit shapes are decided by a specification",
   technique="TLA+ spec Limits.tla (expected value per shape and size, enumerated by TLC) replayed on the real compiler and VM; library edge-value and byte-mutation exploration"),
  "C05": dict(
@@ -102,8 +102,10 @@ CHECKS = {
   text="same machinery as C05 with memory limits: programs run under limits around their measured peak; traces (including every kill decision on a memory request "
        "and memory released while unwinding) validated by TLC against Quota.tla via QuotaTrace.tla; a memverdict event per run makes TLC check used < M and "
        "monotonicity of being killed in M; adversarial shells with allocating bodies must be killed; amplification templates must end by kill/error quickly "
-       "with used < M and Go heap allocation (MemStats.TotalAlloc delta) below 64*M + 64 MiB",
-  note="heap-growth and wall-clock bounds are observations, not decided by the specification; byte counts per object are never compared",
+       "with used < M and Go heap allocation (MemStats.TotalAlloc delta) below 64*M + 64 MiB; 29 holder programs keep 20-130 MB alive through one kind of value or route each "
+       "(nested / forwarded / built vararg lists, pack, constructors, resume and yield values, tables, keys, strings, closures, upvalues, coroutines, loaded functions ...) and report the "
+       "memory accounted at their peak while the driver samples the live Go heap: a heapverdict event makes TLC check heap <= 16 * accounted + 32 MiB",
+  note="the constants of the heap relation (16x, 32 MiB; measured ratios are 0.1-7.4) and the wall-clock bounds are chosen, not derived; byte counts per object are never compared",
   technique="TLA+ specs Quota.tla + QuotaTrace.tla, TLC trace validation of hook traces from real programs (direction B)"),
  "C12": dict(
   level="model_checking", ref="5 C12 and notes/C12.md",
@@ -111,7 +113,8 @@ CHECKS = {
        "TLC checks Parse(Render(t)) = t on every tree and emits, for all expression trees with up to 3 operators over the 21 binary and 4 unary operators "
        "(term-building metamethod semantics and integer semantics), the texts and expected values; each is evaluated on the real scanner/parser/compiler/VM in six "
        "spellings. StrLex.tla gives byte-level denotations of short strings (every escape), long brackets, numerals (kind and value, overflow rules) and token lines; "
-       "all literals up to a length bound, all expression lists in 12 multi-value contexts, and ~50k multi-line programs with one offending token (error line) are compared",
+       "all literals up to a length bound, all expression lists in 12 multi-value contexts, and ~50k multi-line programs with one offending token (error line) are compared. "
+       "SyntaxFlat.tla: 24 constructs repeated side by side 1..5000 (20000) times - valid chunks of constant nesting depth that no nesting limit may refuse - with the value each returns",
   note="bounded tree size / literal length; message wording not compared (only the line number); a float numeral is assumed to denote the nearest double; open finding C12-5",
   technique="TLA+ specs Syntax.tla + StrLex.tla evaluated exhaustively by TLC, expected values compared with the real front end through generated chunks (direction A)"),
  "C18": dict(
@@ -197,7 +200,7 @@ CHECKS = {
   text="Isolation.tla (N runtimes with private state only, so non-interference holds for every interleaving by construction) is used by TLC to enumerate all schedules of the "
        "statement segments of 2-3 programs; each schedule is replayed on real Runtime values living in one process (one goroutine each, gated so that exactly one advances), for "
        "program tuples built from a menu of statements on every per-runtime root (globals, library tables, string metatable, random generator incl. seed-then-draw across "
-       "segments, quotas, errors, coroutines, finalisers, package.loaded); every runtime's events must equal its solo run. The same programs also run freely in parallel on 4 "
+       "segments, quotas, errors, coroutines, finalisers, package.loaded, the per-runtime wrappers of the process-wide standard files incl. closing them by <close> and by ending the runtime); every runtime's events must equal its solo run. The same programs also run freely in parallel on 4 "
        "goroutines with a race-detector build (GOMAXPROCS 2 and 8): a race report with golua frames or a deviation from the solo run is a violation",
   note="the race detector only sees races the executions expose (an observation supporting the verdict); the process-wide Go GC setting (collectgarbage stop/restart) is not exercised",
   technique="TLA+ spec Isolation.tla, TLC enumeration of interleavings, schedules replayed on real runtimes with gated goroutines (direction A) + race-detector runs"),
